@@ -270,7 +270,7 @@ def expected_from_text(txt):
     return exp
 
 
-def mk_pipeline_sites(name, axis):
+def mk_pipeline_sites(name, axis, expected_hetero=None, hetero_residues=()):
     """whole pipeline under a symbolic grid translation: exactly the sites of the statement are reported, once, with
     the tabulated model pKa; a disulfide-bridged cysteine is reported as non-titrating (99.99), any other is titrated"""
     def body(ctx):
@@ -306,7 +306,20 @@ def mk_pipeline_sites(name, axis):
                         ctx.claim('bridged-cysteine-not-titrated', (not g.titratable) and eq(g.pka_value, 99.99), detail='%r: titratable=%r pKa=%r' % (lab, g.titratable, g.pka_value))
                     else:
                         ctx.claim('free-cysteine-titrated', bool(g.titratable), detail=lab)
+        p = mol.version.parameters
+        het = [g for g in mol.conformations[mol.conformation_names[0]].groups if g.atom.type != 'atom']
+        for g in het:
+            if g.type == 'ION':
+                ctx.claim('ion-gets-configured-charge', g.charge == p.ions[g.atom.res_name.strip()] and not g.titratable, detail='%s: %r' % (g.label, g.charge))
+            elif g.titratable:
+                ctx.claim('ligand-group-gets-configured-model-pka-and-charge', g.model_pka == p.model_pkas[g.type] and g.charge == p.charge[g.type],
+                          detail='%s (%s): model pKa %r, charge %r' % (g.label, g.type, g.model_pka, g.charge))
+        if expected_hetero is not None:
+            got = sorted((g.label.strip(), g.type) for g in het if g.titratable or g.type == 'ION')
+            ctx.claim('hetero-groups-as-expected', got == sorted(expected_hetero), detail='%r' % (got,))
         for lab in rep:
+            if lab[:3].strip() in hetero_residues:
+                continue      # which of several coupled ligand groups is the titrating one is not part of this property
             ctx.claim('nothing-else-reported', lab in exp, detail='unexpected %r' % lab)
     return body
 
@@ -351,6 +364,13 @@ def obligations(tier):
     if tier == 'thorough':
         fx += [(n, ax) for n in ('pair_CYS_CYS_bridge_along_x', 'pair_CYS_CYS_bridge', 'pep8', 'pair_ASP_ARG', 'pair_LYS_ASP', 'pair_ASP_ASP', 'tri_CYS', 'tri_HIS', 'tri_TYR') for ax in (0, 1, 2)
                if (n, ax) not in fx]
+    # methotrexate: four aromatic ring nitrogens (pteridine N1, N3, N5, N8) and the two glutamate carboxylates (CT, CD); a chloride
+    MTX = [('MTX  N1 A', 'NAR'), ('MTX  N3 A', 'NAR'), ('MTX  N5 A', 'NAR'), ('MTX  N8 A', 'NAR'), ('MTX  CT A', 'OCO'), ('MTX  CD A', 'OCO'), ('CL   CL A', 'ION')]
+    obs.append(Obligation('O4-pipeline-sites[complex_MTX,x]', mk_pipeline_sites('complex_MTX', 0, MTX, ('MTX', 'CL')),
+                          code=['propka/run.py:single (whole pipeline)', G + 'is_ligand_group_by_groups', G + 'is_ion_group', G + 'Group.setup', 'propka/ligand.py:assign_sybyl_type'],
+                          bounds='methotrexate + lining residues + chloride (cut from 4DFR) under a symbolic grid translation t in [0, 2.509] along x',
+                          claim_doc='protein sites as O4; the ligand\'s ionizable groups and the ion are recognised, each with the model pKa / charge configured for its type',
+                          max_paths=5000, wall_s=170, split_input=('shift_thousandths', 8)))
     for name, ax in fx:
         obs.append(Obligation('O4-pipeline-sites[%s,%s]' % (name, 'xyz'[ax]), mk_pipeline_sites(name, ax),
                               code=['propka/run.py:single (whole pipeline)', 'propka/bonds.py:BondMaker.find_bonds_for_atoms_using_boxes', 'propka/bonds.py:BondMaker.check_distance',
